@@ -46,6 +46,15 @@ def encRead (r : Except ReadErr ReadResult) : String :=
 def decCell (s : String) : Option Str := if s == "N" then none else some (decStr s)
 def decCells (s : String) : List (Option Str) := if s == "!" then [] else (s.splitOn ",").map decCell
 def decCellTable (s : String) : List (List (Option Str)) := if s == "~" then [] else (s.splitOn ";").map decCells
+/-- general cells: `N`, an encoded string, or `L` followed by `+`-separated items (`L!` = empty list) -/
+def decGCell (s : String) : Cell :=
+  if s == "N" then .none
+  else if s.startsWith "L" then
+    let body := (s.drop 1).toString
+    .list (if body == "!" then [] else (body.splitOn "+").map decCell)
+  else .str (decStr s)
+def decGCells (s : String) : List Cell := if s == "!" then [] else (s.splitOn ",").map decGCell
+def decGCellTable (s : String) : List (List Cell) := if s == "~" then [] else (s.splitOn ";").map decGCells
 
 def encWrite (r : Except WriteErr WState) : String :=
   match r with
@@ -55,7 +64,7 @@ def encWrite (r : Except WriteErr WState) : String :=
 
 def doWrite (pol js d linesep hdr table : String) : Except WriteErr WState :=
   let c : WCfg := { delim := decStr d, policy := decPolicy pol, lineSep := decStr linesep, js := decBool js }
-  writeAll c (if hdr == "N" then none else some (decList (hdr.drop 1).toString)) (decCellTable table)
+  writeAllCells c (if hdr == "N" then none else some (decList (hdr.drop 1).toString)) (decGCellTable table)
 
 def encStmt : Stmt → String
   | .strictLeftJoin => "STRICT LEFT JOIN" | .leftOuterJoin => "LEFT OUTER JOIN" | .leftJoin => "LEFT JOIN" | .innerJoin => "INNER JOIN"
